@@ -2,6 +2,8 @@
 # Specificity sweep: every quick check over several VERIF_SEED values on the unchanged tree; any non-zero exit is logged.
 # usage: seed_sweep.sh <first seed> <last seed> [ids...]     (run from a /verif checkout; uses its own work/ and evidence/)
 cd "$(dirname "$0")/.."
+# a background run gets its own snapshot of the repository (vp run --with-repo), so that edits to /repo do not disturb it
+if [ -n "$VP_RUN_REPO" ]; then export VERIF_REPO=$VP_RUN_REPO; fi
 a=$1; b=$2; shift 2
 ids=${@:-C01 C02 C03 C04 C05 C06 C07 C08 C09 C10 C11 C12 C13 C14 C15 C16 C17 C18 C19}
 python3 tools/check.py --setup
